@@ -910,3 +910,92 @@ Proof.
     - rewrite (U_is_V _ Hnd). rewrite (V_perm _ _ _ Hp). lia. }
   pose proof (set_optimistic_bound _ _ _ _ _ E2). lia.
 Qed.
+
+(* ---- C20 / C12: a peer that goes away is forgotten and its piece released ------------------------------ *)
+Lemma pget_notin ps a : ~ In a (map fst ps) -> pget ps a = None.
+Proof.
+  induction ps as [|[k q] ps IH]; intros Hni; [reflexivity|]. cbn [pget]. cbn [map fst In] in Hni.
+  destruct (N.eqb_spec k a) as [->|]; [exfalso; apply Hni; left; reflexivity|]. apply IH. intros H. apply Hni. right. exact H.
+Qed.
+
+Lemma pget_premove_same ps a : NoDup (map fst ps) -> pget (premove ps a) a = None.
+Proof.
+  induction ps as [|[k q] ps IH]; intros Hnd; [reflexivity|]. cbn [map fst] in Hnd. inversion Hnd as [|? ? Hni Hnd']; subst.
+  cbn [premove]. destruct (N.eqb_spec k a) as [->|Nk].
+  - apply pget_notin. exact Hni.
+  - cbn [pget]. replace (k =? a) with false by (symmetry; apply N.eqb_neq; exact Nk). apply IH. exact Hnd'.
+Qed.
+
+Theorem kill_releases m a p m1 : NoDup (map fst (m_peers m)) -> pget (m_peers m) a = Some p -> kill_peer m a = Ok m1 ->
+  pget (m_peers m1) a = None /\
+  (forall i, p_piece_index p = Some i -> nthN (m_status m) i <> Some Have -> nthN (m_status m1) i = Some Missing) /\
+  (forall j, p_piece_index p <> Some j -> nthN (m_status m1) j = nthN (m_status m) j).
+Proof.
+  intros Hnd Ep H. unfold kill_peer in H. rewrite Ep in H. cbn [bind] in H.
+  destruct (p_piece_index p) as [k|] eqn:Ek; cbn [bind] in H.
+  - destruct (nthN (m_status m) k) as [sk|] eqn:Esk; cbn [bind] in H; [|discriminate]. injection H as <-. cbn [m_peers m_status].
+    split; [apply pget_premove_same; exact Hnd|]. split.
+    + intros i [= <-] Hn. destruct sk; cbn [is_have]; try (rewrite nthN_sset, N.eqb_refl, Esk; reflexivity). exfalso. apply Hn. exact Esk.
+    + intros j Hj. destruct (is_have sk); [reflexivity|]. rewrite nthN_sset. destruct (N.eqb_spec k j) as [->|]; [exfalso; apply Hj; reflexivity | reflexivity].
+  - injection H as <-. cbn [m_peers m_status]. split; [apply pget_premove_same; exact Hnd|]. split; [discriminate | reflexivity].
+Qed.
+
+(* ---- C14: after a rotation every peer that is unchoked and not a new optimistic pick has declared interest --------- *)
+Lemma rotate_go_interest new_opt : forall order ps count flips ps' fl', NoDup order ->
+  rotate_go ps order new_opt count flips = Ok (ps', fl') ->
+  (forall a p', In a order -> pget ps' a = Some p' -> p_am_choked p' = false -> p_interested p' = true) /\
+  (forall b, ~ In b order -> pget ps' b = pget ps b).
+Proof.
+  induction order as [|a rest IH]; intros ps count flips ps' fl' Hnd H.
+  - cbn [rotate_go] in H. injection H as <- _. split; [intros a p' [] | reflexivity].
+  - cbn [rotate_go] in H. destruct (pget ps a) as [p|] eqn:Ep; [|discriminate].
+    inversion Hnd as [|? ? Hni Hnd']; subst.
+    set (opt := match new_opt with [] => p_optimistic p | _ => false end) in *.
+    assert (Go : forall am cnt' (fl : list (addr * bool)), (am = false -> p_interested p = true) ->
+                 rotate_go (pset ps a (set_am_choked p am opt)) rest new_opt cnt' (flips ++ fl) = Ok (ps', fl') ->
+                 (forall a0 p', In a0 (a :: rest) -> pget ps' a0 = Some p' -> p_am_choked p' = false -> p_interested p' = true) /\
+                 (forall b, ~ In b (a :: rest) -> pget ps' b = pget ps b)).
+    { intros am cnt' fl Ham H'. destruct (IH _ _ _ _ _ Hnd' H') as [I1 I2]. split.
+      - intros a0 p' [<-|Hin] Hp' Hc; [|exact (I1 a0 p' Hin Hp' Hc)].
+        rewrite (I2 a Hni), pget_pset_same in Hp'. injection Hp' as <-. cbn [set_am_choked p_am_choked p_interested] in *. exact (Ham Hc).
+      - intros b Hb. rewrite (I2 b) by (intros Hin; apply Hb; right; exact Hin).
+        apply pget_pset_other. intros ->. apply Hb. left. reflexivity. }
+    destruct (count <? MAX_UNCHOKED).
+    + destruct (p_am_choked p && p_interested p && negb (mem_addr a new_opt)) eqn:E1.
+      * apply (Go false (count + 1) [(a, false)]); [|exact H]. intros _.
+        apply andb_true_iff in E1. destruct E1 as [E1 _]. apply andb_true_iff in E1. tauto.
+      * destruct (negb (p_am_choked p) && p_interested p) eqn:E2.
+        -- apply (Go (p_am_choked p) (count + 1) []); [|exact H]. intros _. apply andb_true_iff in E2. tauto.
+        -- destruct (negb (p_am_choked p) && negb (p_interested p)) eqn:E3.
+           ++ apply (Go true count [(a, true)]); [discriminate | exact H].
+           ++ apply (Go (p_am_choked p) count []); [|exact H]. intros Hc. rewrite Hc in E2, E3. cbn in E2, E3.
+              destruct (p_interested p); [reflexivity | discriminate].
+    + destruct (negb (p_am_choked p)) eqn:E1.
+      * apply (Go true count [(a, true)]); [discriminate | exact H].
+      * apply (Go (p_am_choked p) count []); [|exact H]. intros Hc. rewrite Hc in E1. discriminate.
+Qed.
+
+Lemma set_optimistic_other : forall new_opt ps flips ps' fl', set_optimistic ps new_opt flips = Ok (ps', fl') ->
+  forall b, ~ In b new_opt -> pget ps' b = pget ps b.
+Proof.
+  induction new_opt as [|a rest IH]; intros ps flips ps' fl' H b Hb; cbn [set_optimistic] in H.
+  - injection H as <- _. reflexivity.
+  - destruct (pget ps a) as [p|]; [|discriminate]. rewrite (IH _ _ _ _ H b) by (intros Hin; apply Hb; right; exact Hin).
+    apply pget_pset_other. intros ->. apply Hb. left. reflexivity.
+Qed.
+
+Theorem rotation_slots_interested m rates new_opt m' fl :
+  NoDup (map fst rates) -> change_conn_state m rates new_opt = Ok (m', fl) ->
+  forall a p', In a (map fst rates) -> ~ In a new_opt -> pget (m_peers m') a = Some p' ->
+  p_am_choked p' = false -> p_interested p' = true.
+Proof.
+  intros Hnd H a p' Hin Hno Hp Hc. unfold change_conn_state in H.
+  destruct (rotate_go (m_peers m) (map fst (sort_rates rates)) new_opt 0 []) as [[ps1 fl1]| | |] eqn:E1; cbn [bind] in H; try discriminate.
+  cbn [fst snd] in H. destruct (set_optimistic ps1 new_opt fl1) as [[ps2 fl2]| | |] eqn:E2; cbn [bind] in H; try discriminate.
+  injection H as <- _. cbn [m_peers fst] in Hp.
+  assert (Hp' : Permutation (map fst (sort_rates rates)) (map fst rates)) by (apply Permutation_map; apply sort_rates_perm).
+  assert (Hnd' : NoDup (map fst (sort_rates rates))) by (eapply Permutation_NoDup; [apply Permutation_sym; exact Hp' | exact Hnd]).
+  destruct (rotate_go_interest new_opt _ _ _ _ _ _ Hnd' E1) as [I1 _].
+  rewrite (set_optimistic_other _ _ _ _ _ E2 a Hno) in Hp.
+  apply (I1 a p'); [apply (Permutation_in _ (Permutation_sym Hp')); exact Hin | exact Hp | exact Hc].
+Qed.
